@@ -68,3 +68,20 @@ for dp, dn, fn in os.walk(os.path.join(root, "typhon")):
         loc[rel] = d
 json.dump(loc, open(os.path.join(here, "..", "tyverif", "known_locals.json"), "w"), indent=0, sort_keys=True)
 print(sum(len(v) for v in out.values()), "entries")
+
+# statements of every function (digests): the reference for tyverif/novelty.py
+from tyverif.novelty import snapshot_of
+st = {}
+for dp, dn, fn in os.walk(os.path.join(root, "typhon")):
+    for f in fn:
+        if not f.endswith(".py"):
+            continue
+        p = os.path.join(dp, f)
+        rel = os.path.relpath(p, root)
+        try:
+            tree = ast.parse(open(p).read())
+        except SyntaxError:
+            continue
+        st[rel] = snapshot_of(tree)
+json.dump(st, open(os.path.join(here, "..", "tyverif", "known_stmts.json"), "w"), indent=0, sort_keys=True)
+print("known_stmts:", sum(len(v) for v in st.values()), "functions")
